@@ -34,7 +34,8 @@ def gen_cases(tier, seed):
             else:
                 ninf += 1
         cfgd = C.sample(rng, {"control": C.CONTROL, "newton": ["Simplified", "Full", "ActiveSet"],
-                              "penalty": ["DualNorm", "DualNorm", "Constant", "DualEquilibration", "ParetoDecrease"],
+                              "penalty": ["DualNorm", "DualNorm", "Constant", "DualEquilibration", "ParetoDecrease",
+                                          "ObjectiveFilter", "LagrangianFilter"],
                               "step_solver": C.STEP_SOLVER, "scaling": ["none", "none", "custom", "GradJac"]})
         case = work.mk_case(fam, [seed, k], cfgd, wspan=3)
         if fam == "INF":
